@@ -7,5 +7,6 @@ CONSTANTS
   DevStderrToFd1 = FALSE
   DevValidateLate = FALSE
   DevIndexCountsSkipped = TRUE
+  DevBreakEndsFileOnly = FALSE
 INVARIANT Indices
 CHECK_DEADLOCK FALSE
